@@ -7,8 +7,44 @@ split; an ``or`` stays one opaque literal).  Each literal is (expression, positi
 import ast
 
 
+def boolify(e):
+    """a conditional expression in boolean context as and/or/not (truth value preserved):
+    ``False if c else x`` = ``not c and x``, ``True if c else x`` = ``c or x``,
+    ``x if c else False`` = ``c and x``, ``x if c else True`` = ``not c or x``,
+    otherwise ``(c and a) or (not c and b)``"""
+    if not isinstance(e, ast.IfExp):
+        return e
+
+    def const(x):
+        return x.value if isinstance(x, ast.Constant) and isinstance(x.value, bool) else None
+
+    def neg(x):
+        return ast.copy_location(ast.UnaryOp(op=ast.Not(), operand=x), x)
+
+    def both(op, a, b):
+        return ast.copy_location(ast.BoolOp(op=op, values=[a, b]), e)
+    c, a, b = e.test, boolify(e.body), boolify(e.orelse)
+    if const(a) is False:
+        r = both(ast.And(), neg(c), b)
+    elif const(a) is True:
+        r = both(ast.Or(), c, b)
+    elif const(b) is False:
+        r = both(ast.And(), c, a)
+    elif const(b) is True:
+        r = both(ast.Or(), neg(c), a)
+    else:
+        r = both(ast.Or(), both(ast.And(), c, a), both(ast.And(), neg(c), b))
+    for p in ast.walk(r):
+        for ch in ast.iter_child_nodes(p):
+            if not hasattr(ch, '_parent') or p is r or isinstance(p, (ast.BoolOp, ast.UnaryOp)) and \
+                    not hasattr(p, '_keep'):
+                pass
+    return r
+
+
 def split_literals(test, positive=True):
     """literals of a condition that is required to be *positive*"""
+    test = boolify(test)
     if isinstance(test, ast.UnaryOp) and isinstance(test.op, ast.Not):
         return split_literals(test.operand, not positive)
     if isinstance(test, ast.BoolOp):
@@ -125,6 +161,15 @@ def eval_guard(expr, env):
     if key in env:
         v = env[key]
         return v(expr) if callable(v) else v
+    if isinstance(expr, _ast.Call) and isinstance(expr.func, _ast.Name) and expr.func.id == 'bool' and \
+            len(expr.args) == 1 and not expr.keywords:
+        v = eval_guard(expr.args[0], env)
+        return UNKNOWN if v is UNKNOWN else bool(v)
+    if isinstance(expr, _ast.IfExp):
+        c = eval_guard(expr.test, env)
+        if c is UNKNOWN:
+            return UNKNOWN
+        return eval_guard(expr.body if c else expr.orelse, env)
     if isinstance(expr, _ast.Constant):
         return expr.value
     if isinstance(expr, _ast.BoolOp):
